@@ -15,9 +15,15 @@ Proof. unfold u64. apply Z.mod_pos_bound. reflexivity. Qed.
 
 (* ---- obligations on the generated constants, closed by computation ---- *)
 Lemma constants_nest a :
-  constants_ok (is_tx a) (validity a) (signing_end_offset a) (safety_margin a) loop_blocks
-               (broadcast_timeout_ns a) = true.
+  constants_ok (is_tx a) (validity a) (signing_end_offset a) (safety_margin a)
+               (signing_delay a + loop_blocks) (broadcast_timeout_ns a) = true.
 Proof. destruct a; vm_compute; reflexivity. Qed.
+
+Lemma signing_delay_nonneg a : 0 <= signing_delay a.
+Proof. destruct a; vm_compute; congruence. Qed.
+
+Lemma loop_blocks_nonneg : 0 <= loop_blocks.
+Proof. apply u64_nonneg. Qed.
 
 Lemma loop_blocks_no_wrap : loop_blocks = signingAttemptsLimit * attempt_max_blocks.
 Proof. vm_compute. reflexivity. Qed.
@@ -62,20 +68,22 @@ Lemma signing_window_nests a start :
   0 <= start -> start + validity a < two64 ->
   exists se,
     signing_end a (expiry a start) = Some se /\
-    start <= signing_start start /\ signing_start start <= se /\
+    start <= action_signing_start a start /\ action_signing_start a start <= se /\
+    action_signing_start a start = start + signing_delay a /\
     se <= expiry a start - safety_margin a /\
-    signing_start start + signingAttemptsLimit * attempt_max_blocks <= se /\
-    loop_timeout start <= se.
+    action_signing_start a start + signingAttemptsLimit * attempt_max_blocks <= se /\
+    loop_timeout (action_signing_start a start) <= se.
 Proof.
   intros Hs Hov. rewrite (expiry_val a start Hs Hov).
   destruct (windows_from_constants _ _ _ _ _ _ start (constants_nest a) Hs Hov)
     as [_ [se [E [Ev [H1 [H2 [H3 _]]]]]]].
-  exists se. unfold signing_end, signing_start, loop_timeout. rewrite E.
+  exists se. unfold signing_end, action_signing_start, loop_timeout. rewrite E.
   rewrite <- loop_blocks_no_wrap.
+  pose proof (signing_delay_nonneg a) as Hd. pose proof loop_blocks_nonneg as Hl.
+  destruct (constants_ok_sound _ _ _ _ _ _ (constants_nest a)) as [? [? [? _]]].
+  rewrite (u64_small (start + signing_delay a)) by lia.
   repeat split; try lia.
-  rewrite u64_small; [lia|]. pose proof (u64_nonneg (signingAttemptsLimit * attempt_max_blocks)).
-  fold loop_blocks in H. destruct (constants_ok_sound _ _ _ _ _ _ (constants_nest a)) as [? [? [? _]]].
-  lia.
+  rewrite u64_small; lia.
 Qed.
 
 Lemma broadcast_ends_before_expiry a start se :
@@ -103,7 +111,7 @@ Proof.
   unfold signing_end in Hse. rewrite E in Hse. injection Hse as Hse. rewrite <- Hse. clear Hse.
   destruct (Hh eq_refl) as [Ha Hb]. cbn [safety_margin] in *.
   destruct (constants_ok_sound _ _ _ _ _ _ (constants_nest Heartbeat)) as [Hm [Ho _]].
-  cbn [safety_margin signing_end_offset validity] in *.
+  cbn [safety_margin signing_end_offset validity signing_delay] in *.
   unfold claim_end. rewrite u64_small by lia. lia.
 Qed.
 
@@ -137,7 +145,11 @@ Lemma static_model_passes a start :
               s_loop := loop_blocks |}) = Agree.
 Proof.
   intros Htx Hs Hov.
-  pose proof (constants_nest a) as C. rewrite Htx in C.
+  assert (constants_ok (is_tx a) (validity a) (signing_end_offset a) (safety_margin a) loop_blocks
+                       (broadcast_timeout_ns a) = true) as C.
+  { pose proof (constants_nest a) as C0. pose proof (signing_delay_nonneg a). pose proof loop_blocks_nonneg.
+    unfold constants_ok in *. destruct (is_tx a); lia. }
+  rewrite Htx in C.
   assert (safety_margin a = signing_end_offset a) as Em by (destruct a; try discriminate; reflexivity).
   rewrite Em in C.
   destruct (constants_ok_sound _ _ _ _ _ _ C) as [H1 [H2 [H3 [H4 _]]]]. specialize (H4 eq_refl).
@@ -168,7 +180,7 @@ Proof.
   intros Hs He.
   pose proof (constants_nest Heartbeat) as C.
   destruct (constants_ok_sound _ _ _ _ _ _ C) as [H1 [H2 [H3 [_ H4]]]]. specialize (H4 eq_refl).
-  cbn [safety_margin signing_end_offset validity] in *.
+  cbn [safety_margin signing_end_offset validity signing_delay] in *.
   unfold judge, well_formed, is_u64.
   replace ((0 <=? start) && (start <? two64) && ((0 <=? exp) && (exp <? two64))) with true by lia.
   assert (agree (CHeartbeat start exp claims (heartbeat_model start exp claims)) = true) as ->.
@@ -200,3 +212,386 @@ Example deposit_sweep_example :
   signing_end DepositSweep (expiry DepositSweep start) =
     Some (start + validity DepositSweep - signing_end_offset DepositSweep).
 Proof. vm_compute. repeat split; congruence. Qed.
+
+(* =====================================================================================
+   withCancelOnBlock: the deadline is ENFORCED for every event history / waiter behaviour
+   ===================================================================================== *)
+
+Lemma ctx_cancelled_absorbing oe h : ctx_run oe CtxCancelled h = CtxCancelled.
+Proof. induction h as [|e h IH]; [reflexivity|]. cbn [ctx_run fold_left ctx_step]. exact IH. Qed.
+
+Lemma ctx_run_app oe s h1 h2 : ctx_run oe s (h1 ++ h2) = ctx_run oe (ctx_run oe s h1) h2.
+Proof. unfold ctx_run. apply fold_left_app. Qed.
+
+(* exact characterisation: open after a history iff no closing event occurred in it *)
+Lemma ctx_open_iff oe h :
+  ctx_run oe CtxOpen h = CtxOpen <-> forallb (fun e => negb (closing oe e)) h = true.
+Proof.
+  induction h as [|e h IH]; [cbn; tauto|].
+  cbn [ctx_run fold_left ctx_step forallb].
+  destruct (closing oe e) eqn:E; cbn [negb andb].
+  - fold (ctx_run oe CtxCancelled h). rewrite ctx_cancelled_absorbing. split; discriminate.
+  - exact IH.
+Qed.
+
+Lemma ctx_closed_at_first_closing_event oe s pre e post :
+  closing oe e = true ->
+  ctx_run oe s (pre ++ [e]) = CtxCancelled /\ ctx_run oe s (pre ++ e :: post) = CtxCancelled.
+Proof.
+  intros E.
+  assert (ctx_run oe s (pre ++ [e]) = CtxCancelled) as H.
+  { rewrite ctx_run_app. generalize (ctx_run oe s pre). intros s'. unfold ctx_run. cbn [fold_left].
+    destruct s'; cbn [ctx_step]; [rewrite E|]; reflexivity. }
+  split; [exact H|].
+  replace (pre ++ e :: post) with ((pre ++ [e]) ++ post) by (rewrite <- app_assoc; reflexivity).
+  rewrite ctx_run_app, H. apply ctx_cancelled_absorbing.
+Qed.
+
+Lemma ctx_closed_iff_closing_event oe h :
+  ctx_run oe CtxOpen h = CtxCancelled <-> exists e, In e h /\ closing oe e = true.
+Proof.
+  split.
+  - intros H. destruct (forallb (fun e => negb (closing oe e)) h) eqn:F.
+    + apply ctx_open_iff in F. congruence.
+    + assert (existsb (closing oe) h = true) as X.
+      { clear H. induction h as [|e h IH]; [discriminate|]. cbn [forallb existsb] in *.
+        destruct (closing oe e); [reflexivity|]. cbn [negb andb orb] in *. auto. }
+      apply existsb_exists in X. exact X.
+  - intros [e [Hin E]]. apply in_split in Hin. destruct Hin as [pre [post ->]].
+    apply (ctx_closed_at_first_closing_event oe CtxOpen pre e post E).
+Qed.
+
+Lemma ctx_never_open_after_waiter_error s h :
+  In EvWaiterError h -> ctx_run code_on_error s h = CtxCancelled.
+Proof.
+  intros Hin. apply in_split in Hin. destruct Hin as [pre [post ->]].
+  apply (ctx_closed_at_first_closing_event code_on_error s pre EvWaiterError post). reflexivity.
+Qed.
+
+Lemma ctx_closed_iff_named_event (h : list event) :
+  ctx_run code_on_error CtxOpen h = CtxCancelled <->
+  exists e, In e h /\ (e = EvParentDone \/ e = EvBlockReached \/ e = EvWaiterError).
+Proof.
+  rewrite (ctx_closed_iff_closing_event code_on_error h).
+  split; intros [e [Hin H]]; exists e; (split; [exact Hin|]).
+  - destruct e; try discriminate; auto.
+  - destruct H as [-> | [-> | ->]]; reflexivity.
+Qed.
+
+Lemma ctx_closed_at_first_named_event s pre e post :
+  e = EvParentDone \/ e = EvBlockReached \/ e = EvWaiterError ->
+  ctx_run code_on_error s (pre ++ [e]) = CtxCancelled /\
+  ctx_run code_on_error s (pre ++ e :: post) = CtxCancelled.
+Proof.
+  intros H. apply ctx_closed_at_first_closing_event.
+  destruct H as [-> | [-> | ->]]; reflexivity.
+Qed.
+
+(* a rule that does not cancel on a waiter error leaves the context open after the error *)
+Lemma lenient_rule_stays_open_after_error h :
+  (forall e, In e h -> e = EvWaiterError \/ e = EvQuiet) -> ctx_run false CtxOpen h = CtxOpen.
+Proof.
+  intros H. apply ctx_open_iff. apply forallb_forall. intros e Hin.
+  destruct (H e Hin) as [-> | ->]; reflexivity.
+Qed.
+
+(* ---- the scripted world ---- *)
+Definition winv (st : wstate) : Prop :=
+  is_closed (w_ctx st) = w_parent st || returned (w_ret st) /\
+  (w_parent st = true -> returned (w_ret st) = true).
+
+Lemma winv_init : winv w_init.
+Proof. split; [reflexivity|discriminate]. Qed.
+
+Lemma world_step_parent oe m armed target st d :
+  w_parent (world_step oe m armed target st d) = w_parent st || is_cancel d.
+Proof.
+  unfold world_step, step_events.
+  destruct d as [b|]; cbn [is_cancel].
+  - destruct (w_ret st); [destruct (fires m armed target b)|..]; cbn [w_parent]; rewrite orb_false_r; reflexivity.
+  - destruct (w_parent st) eqn:P; [reflexivity|]. destruct (w_ret st); reflexivity.
+Qed.
+
+Lemma winv_step m armed target st d :
+  winv st -> winv (world_step code_on_error m armed target st d).
+Proof.
+  intros [H1 H2]. unfold world_step, step_events.
+  destruct st as [r p c]. cbn [w_ret w_parent w_ctx] in *.
+  destruct d as [b|].
+  - destruct r.
+    + destruct (fires m armed target b); cbn [w_ret w_parent w_ctx ctx_run fold_left];
+        (split; [|cbn [returned]; auto]).
+      * cbn [returned] in *. destruct c; cbn [ctx_step closing]; exact H1.
+      * destruct c; reflexivity || (cbn [ctx_step closing code_on_error is_closed returned]; rewrite orb_true_r; reflexivity).
+      * destruct c; reflexivity || (cbn [ctx_step closing code_on_error is_closed returned]; rewrite orb_true_r; reflexivity).
+    + cbn [w_ret w_parent w_ctx ctx_run fold_left]. split; [|reflexivity].
+      destruct c; cbn [ctx_step closing]; exact H1.
+    + cbn [w_ret w_parent w_ctx ctx_run fold_left]. split; [|reflexivity].
+      destruct c; cbn [ctx_step closing]; exact H1.
+  - destruct p.
+    + cbn [w_ret w_parent w_ctx ctx_run fold_left]. split; [|exact H2].
+      destruct c; cbn [ctx_step closing]; exact H1.
+    + destruct r; cbn [w_ret w_parent w_ctx ctx_run fold_left]; (split; [|reflexivity]);
+        destruct c; reflexivity.
+Qed.
+
+Lemma winv_run m armed target steps st :
+  winv st -> winv (world_run code_on_error m armed target st steps).
+Proof.
+  revert st. induction steps as [|d ds IH]; intros st H; [exact H|].
+  cbn [world_run fold_left]. apply IH. apply winv_step. exact H.
+Qed.
+
+Lemma world_run_app oe m armed target st s1 s2 :
+  world_run oe m armed target st (s1 ++ s2) =
+  world_run oe m armed target (world_run oe m armed target st s1) s2.
+Proof. unfold world_run. apply fold_left_app. Qed.
+
+(* under the rule of the code the derived context is closed exactly when the waiter has
+   returned (nil or error) or the parent is done — at every point of every script *)
+Lemma world_closed_iff_event m armed target steps :
+  let st := world_run code_on_error m armed target w_init steps in
+  is_closed (w_ctx st) = w_parent st || returned (w_ret st).
+Proof. cbn zeta. apply (winv_run m armed target steps w_init winv_init). Qed.
+
+Lemma world_step_cancelled_stays oe m armed target st d :
+  w_ctx st = CtxCancelled -> w_ctx (world_step oe m armed target st d) = CtxCancelled.
+Proof.
+  intros H. unfold world_step. destruct (step_events m armed target st d) as [[evs r] pd].
+  cbn [w_ctx]. rewrite H. apply ctx_cancelled_absorbing.
+Qed.
+
+Lemma world_run_cancelled_stays oe m armed target steps st :
+  w_ctx st = CtxCancelled -> w_ctx (world_run oe m armed target st steps) = CtxCancelled.
+Proof.
+  revert st. induction steps as [|d ds IH]; intros st H; [exact H|].
+  cbn [world_run fold_left]. apply IH. apply world_step_cancelled_stays. exact H.
+Qed.
+
+(* the block at which a scripted waiter returns by itself *)
+Definition trigger (m : wmode) (armed target : Z) : option Z :=
+  match m with WOk => Some target | WErrAfter k => Some (armed + k) | WHang => None end.
+
+Lemma is_closed_true s : is_closed s = true -> s = CtxCancelled.
+Proof. destruct s; [discriminate|reflexivity]. Qed.
+
+(* for every waiter that returns — with nil at the block or with an error at any block — the
+   derived context is closed as soon as the clock shows the block of that return, whatever
+   happened before and whatever happens afterwards *)
+Lemma deadline_enforced m armed target tr pre b post :
+  trigger m armed target = Some tr -> tr <= b ->
+  w_ctx (world_run code_on_error m armed target w_init (pre ++ [SAdvance b])) = CtxCancelled /\
+  w_ctx (world_run code_on_error m armed target w_init (pre ++ SAdvance b :: post)) = CtxCancelled.
+Proof.
+  intros Ht Hb.
+  assert (w_ctx (world_run code_on_error m armed target w_init (pre ++ [SAdvance b])) = CtxCancelled) as H.
+  { rewrite world_run_app.
+    pose proof (winv_run m armed target pre w_init winv_init) as [I1 I2].
+    set (st := world_run code_on_error m armed target w_init pre) in *.
+    cbn [world_run fold_left]. unfold world_step, step_events.
+    destruct (w_ret st) eqn:R.
+    - assert (fires m armed target b <> NotReturned) as F.
+      { destruct m; cbn [trigger fires] in *; try discriminate; injection Ht as <-.
+        - destruct (Z.leb_spec target b); [discriminate|lia].
+        - destruct (Z.leb_spec (armed + k) b); [discriminate|lia]. }
+      destruct (fires m armed target b); [congruence| |]; cbn [w_ctx ctx_run fold_left];
+        destruct (w_ctx st); reflexivity.
+    - cbn [w_ctx ctx_run fold_left]. cbn [returned] in I1. rewrite orb_true_r in I1.
+      apply is_closed_true in I1. rewrite I1. reflexivity.
+    - cbn [w_ctx ctx_run fold_left]. cbn [returned] in I1. rewrite orb_true_r in I1.
+      apply is_closed_true in I1. rewrite I1. reflexivity. }
+  split; [exact H|].
+  replace (pre ++ SAdvance b :: post) with ((pre ++ [SAdvance b]) ++ post) by (rewrite <- app_assoc; reflexivity).
+  rewrite world_run_app. apply world_run_cancelled_stays. exact H.
+Qed.
+
+(* a healthy waiter does not cut the phase short: while the clock stays below the target and
+   the parent is not cancelled the context is open *)
+Lemma healthy_waiter_open_before_deadline armed target steps :
+  (forall d, In d steps -> exists b, d = SAdvance b /\ b < target) ->
+  w_ctx (world_run code_on_error WOk armed target w_init steps) = CtxOpen /\
+  w_ret (world_run code_on_error WOk armed target w_init steps) = NotReturned.
+Proof.
+  assert (forall st, w_ctx st = CtxOpen -> w_ret st = NotReturned ->
+            (forall d, In d steps -> exists b, d = SAdvance b /\ b < target) ->
+            w_ctx (world_run code_on_error WOk armed target st steps) = CtxOpen /\
+            w_ret (world_run code_on_error WOk armed target st steps) = NotReturned) as G.
+  { induction steps as [|d ds IH]; intros st Hc Hr Hs; [split; assumption|].
+    cbn [world_run fold_left]. destruct (Hs d (or_introl eq_refl)) as [b [-> Hb]].
+    apply IH.
+    - unfold world_step, step_events. rewrite Hr. cbn [fires].
+      destruct (Z.leb_spec target b); [lia|]. cbn [w_ctx ctx_run fold_left]. rewrite Hc. reflexivity.
+    - unfold world_step, step_events. rewrite Hr. cbn [fires].
+      destruct (Z.leb_spec target b); [lia|]. reflexivity.
+    - intros d Hin. apply Hs. right. exact Hin. }
+  intros H. apply G; [reflexivity|reflexivity|exact H].
+Qed.
+
+(* the rule "cancel only after a successful wait": a block counter that fails when the
+   deadline is armed leaves the context open for ever (no parent to cancel it) *)
+Lemma lenient_world_stays_open armed target steps :
+  existsb is_cancel steps = false ->
+  w_ctx (world_run false (WErrAfter 0) armed target w_init (all_steps armed steps)) = CtxOpen /\
+  w_ret (world_run false (WErrAfter 0) armed target w_init (all_steps armed steps)) = RetErr.
+Proof.
+  intros Hs. unfold all_steps. cbn [world_run fold_left].
+  assert (world_step false (WErrAfter 0) armed target w_init (SAdvance armed) =
+          {| w_ret := RetErr; w_parent := false; w_ctx := CtxOpen |}) as ->.
+  { unfold world_step, step_events. cbn [w_init w_ret fires].
+    destruct (Z.leb_spec (armed + 0) armed); [reflexivity|lia]. }
+  fold (world_run false (WErrAfter 0) armed target {| w_ret := RetErr; w_parent := false; w_ctx := CtxOpen |} steps).
+  induction steps as [|d ds IH]; [split; reflexivity|].
+  cbn [existsb] in Hs. apply orb_false_elim in Hs. destruct Hs as [Hd Hds].
+  destruct d as [b|]; [|discriminate]. cbn [world_run fold_left].
+  unfold world_step at 2 4. unfold step_events. cbn [w_ret w_parent w_ctx ctx_run fold_left ctx_step closing].
+  apply IH. exact Hds.
+Qed.
+
+(* ---- the executable form ---- *)
+Lemma enforce_ok_sound : forall steps obs pd,
+  enforce_ok pd steps obs = true ->
+  length obs = length steps /\
+  forall i d o, nth_error steps i = Some d -> nth_error obs i = Some o ->
+    o_closed o = (pd || existsb is_cancel (firstn (S i) steps)) || returned (o_ret o).
+Proof.
+  induction steps as [|d ds IH]; intros obs pd H.
+  - destruct obs; [|discriminate]. split; [reflexivity|]. intros [|i] ? ? E; discriminate.
+  - destruct obs as [|o os]; [discriminate|]. cbn [enforce_ok] in H.
+    apply andb_prop in H. destruct H as [H1 H2]. apply eqb_prop in H1.
+    destruct (IH os _ H2) as [L R]. split; [cbn; congruence|].
+    intros [|i] d' o' Ed Eo.
+    + cbn in Ed, Eo. injection Ed as <-. injection Eo as <-. cbn [firstn existsb]. rewrite orb_false_r. exact H1.
+    + cbn [nth_error] in Ed, Eo. rewrite (R i d' o' Ed Eo).
+      change (firstn (S (S i)) (d :: ds)) with (d :: firstn (S i) ds). cbn [existsb].
+      rewrite orb_assoc. reflexivity.
+Qed.
+
+Lemma world_obs_enforce_ok m armed target steps st :
+  winv st ->
+  enforce_ok (w_parent st) steps (world_obs code_on_error m armed target st steps) = true.
+Proof.
+  revert st. induction steps as [|d ds IH]; intros st H; [reflexivity|].
+  cbn [world_obs enforce_ok].
+  pose proof (winv_step m armed target st d H) as H'.
+  rewrite <- world_step_parent with (oe := code_on_error) (m := m) (armed := armed) (target := target).
+  rewrite (IH _ H'). destruct H' as [H1 _]. unfold obs_of. cbn [o_closed o_ret]. rewrite H1.
+  rewrite eqb_reflx. reflexivity.
+Qed.
+
+Lemma cobs_eqb_refl o : cobs_eqb o o = true.
+Proof. destruct o as [r c]. unfold cobs_eqb. cbn. rewrite eqb_reflx. destruct r; reflexivity. Qed.
+Lemma obs_eqb_refl l : obs_eqb l l = true.
+Proof. induction l as [|o l IH]; [reflexivity|]. cbn [obs_eqb]. rewrite cobs_eqb_refl, IH. reflexivity. Qed.
+Lemma optZ_eqb_refl o : optZ_eqb o o = true.
+Proof. destruct o; [apply Z.eqb_refl|reflexivity]. Qed.
+
+(* every armer: the model's deadline block is within what the property allows *)
+Lemma armer_target_within ar :
+  armer_wf ar = true ->
+  exists t, armer_target ar = Some t /\ t <= armer_latest ar.
+Proof.
+  pose proof (constants_nest Heartbeat) as CH.
+  destruct (constants_ok_sound _ _ _ _ _ _ CH) as [Hh1 [Hh2 [Hh3 [_ Hh4]]]]. specialize (Hh4 eq_refl).
+  cbn [safety_margin signing_end_offset validity signing_delay] in *.
+  destruct ar as [t p|s t|s e|s e|a s e]; unfold armer_wf, is_u64; intros W.
+  - exists t. split; [reflexivity|cbn; lia].
+  - exists t. split; [reflexivity|cbn; lia].
+  - cbn [armer_target armer_latest]. unfold signing_end, signing_end_of. cbn [signing_end_offset].
+    destruct (Z.ltb_spec e heartbeatInactivityClaimValidityBlocks); [lia|].
+    eexists. split; [reflexivity|]. rewrite u64_small by lia. lia.
+  - cbn [armer_target armer_latest]. unfold signing_end, signing_end_of. cbn [signing_end_offset].
+    destruct (Z.ltb_spec e heartbeatInactivityClaimValidityBlocks); [lia|].
+    eexists. split; [reflexivity|]. unfold claim_end. rewrite u64_small by lia. lia.
+  - cbn [armer_target armer_latest]. unfold signing_end, signing_end_of.
+    assert (safety_margin a = signing_end_offset a) as -> by (destruct a; try reflexivity; cbn in W; lia).
+    destruct (Z.ltb_spec e (signing_end_offset a)); [lia|].
+    eexists. split; [reflexivity|].
+    pose proof (constants_nest a) as C. destruct (constants_ok_sound _ _ _ _ _ _ C) as [? [? _]].
+    assert (0 <= signing_end_offset a) by (destruct a; cbn in *; lia).
+    rewrite u64_small by lia. lia.
+Qed.
+
+Lemma enforce_model_passes ar armed m steps t :
+  well_formed (CEnforce ar armed m steps (armer_sign_start ar) (armer_target ar) []) = true ->
+  armer_target ar = Some t ->
+  judge (CEnforce ar armed m steps (armer_sign_start ar) (armer_target ar) (model_obs m armed t steps)) = Agree.
+Proof.
+  intros W Et. unfold judge.
+  assert (well_formed (CEnforce ar armed m steps (armer_sign_start ar) (armer_target ar) (model_obs m armed t steps)) = true) as -> by exact W.
+  unfold decide.
+  assert (agree (CEnforce ar armed m steps (armer_sign_start ar) (armer_target ar) (model_obs m armed t steps)) = true) as ->.
+  { unfold agree. rewrite !optZ_eqb_refl, Et, obs_eqb_refl. reflexivity. }
+  assert (spec_ok (CEnforce ar armed m steps (armer_sign_start ar) (armer_target ar) (model_obs m armed t steps)) = true) as ->; [|reflexivity].
+  unfold spec_ok. rewrite Et.
+  unfold well_formed in W. apply andb_prop in W. destruct W as [W _].
+  apply andb_prop in W. destruct W as [W _]. apply andb_prop in W. destruct W as [W _].
+  apply andb_prop in W. destruct W as [W _].
+  destruct (armer_target_within ar W) as [t' [Et' Hle]]. rewrite Et in Et'. injection Et' as <-.
+  replace (t <=? armer_latest ar) with true by lia. cbn [andb].
+  assert (match armer_start ar, armer_sign_start ar with Some s0, Some s => s0 <=? s | _, _ => true end = true) as ->.
+  { destruct ar as [? ?|? ?|? ?|? ?|a s e]; cbn [armer_start armer_sign_start]; unfold signing_start;
+      try reflexivity; try lia.
+    unfold action_signing_start. pose proof (signing_delay_nonneg a).
+    unfold armer_wf, is_u64 in W. rewrite u64_small by lia. lia. }
+  cbn [andb].
+  assert (match ar, armer_sign_start ar with
+          | AExec a start exp, Some s => if exp =? start + validity a then s + loop_blocks <=? t else true
+          | _, _ => true
+          end = true) as ->.
+  { destruct ar as [? ?|? ?|? ?|? ?|a s e]; try reflexivity. cbn [armer_sign_start].
+    destruct (Z.eqb_spec e (s + validity a)) as [->|]; [|reflexivity].
+    unfold armer_wf, is_u64 in W. pose proof (signing_delay_nonneg a).
+    cbn [armer_target] in Et. unfold signing_end, signing_end_of in Et.
+    destruct (Z.ltb_spec (s + validity a) (signing_end_offset a)); [discriminate|].
+    injection Et as <-.
+    destruct (constants_ok_sound _ _ _ _ _ _ (constants_nest a)) as [? [? [? _]]].
+    unfold action_signing_start. rewrite !u64_small by lia. lia. }
+  cbn [andb]. unfold model_obs.
+  exact (world_obs_enforce_ok m armed t (all_steps armed steps) w_init winv_init).
+Qed.
+
+(* ---- therefore: every action's signing phase is over by expiry - margin, for every waiter
+   that returns by the deadline block (nil at the block, or an error at any earlier block),
+   for every clock script ---- *)
+Definition waiter_live (m : wmode) (armed se : Z) : Prop :=
+  match m with WOk => True | WErrAfter k => armed + k <= se | WHang => False end.
+
+Lemma signing_phase_enforced a start armed m pre b post :
+  0 <= start -> start + validity a < two64 ->
+  exists se,
+    signing_end a (expiry a start) = Some se /\
+    se <= expiry a start - safety_margin a /\
+    (waiter_live m armed se -> se <= b ->
+     w_ctx (world_run code_on_error m armed se w_init (pre ++ [SAdvance b])) = CtxCancelled /\
+     w_ctx (world_run code_on_error m armed se w_init (pre ++ SAdvance b :: post)) = CtxCancelled).
+Proof.
+  intros Hs Hov. destruct (signing_window_nests a start Hs Hov) as [se [E [_ [_ [_ [Hm _]]]]]].
+  exists se. split; [exact E|]. split; [exact Hm|]. intros L Hb.
+  destruct m as [|k|]; cbn [waiter_live] in L.
+  - apply (deadline_enforced WOk armed se se); [reflexivity|exact Hb].
+  - apply (deadline_enforced (WErrAfter k) armed se (armed + k)); [reflexivity|lia].
+  - contradiction.
+Qed.
+
+(* and the phase is not cut short by a healthy waiter: one complete retry loop still fits *)
+Lemma signing_phase_not_cut_short a start armed steps :
+  0 <= start -> start + validity a < two64 ->
+  exists se,
+    signing_end a (expiry a start) = Some se /\
+    action_signing_start a start + signingAttemptsLimit * attempt_max_blocks <= se /\
+    ((forall d, In d steps -> exists b, d = SAdvance b /\ b < se) ->
+     w_ctx (world_run code_on_error WOk armed se w_init steps) = CtxOpen).
+Proof.
+  intros Hs Hov. destruct (signing_window_nests a start Hs Hov) as [se [E [_ [_ [_ [_ [Hl _]]]]]]].
+  exists se. split; [exact E|]. split; [exact Hl|]. intros H.
+  apply (healthy_waiter_open_before_deadline armed se steps H).
+Qed.
+
+Example enforce_example :
+  judge (CEnforce (AHbSign 1000 1600) 1000 (WErrAfter 0) [SAdvance 1001; SAdvance 1300]
+           (Some 1000) (Some 1300) (model_obs (WErrAfter 0) 1000 1300 [SAdvance 1001; SAdvance 1300])) = Agree
+  /\ judge (CEnforce (AHbSign 1000 1600) 1000 (WErrAfter 0) [SAdvance 1001; SAdvance 1300]
+           (Some 1000) (Some 1300)
+           [ {| o_ret := RetErr; o_closed := false |}; {| o_ret := RetErr; o_closed := false |};
+             {| o_ret := RetErr; o_closed := false |} ]) = SpecFail.
+Proof. vm_compute. split; reflexivity. Qed.
